@@ -2,8 +2,10 @@ package main
 
 import (
 	"fmt"
+	"go/constant"
 	"go/token"
 	"go/types"
+	"sort"
 	"strings"
 
 	"golang.org/x/tools/go/ssa"
@@ -100,6 +102,124 @@ func runR09_6(c *Ctx, r *R) {
 			r.Unk(fnKey(f)+"/recheck-after-insert", f.Pos(), "no success return found in createChannel")
 		}
 	}
+}
+
+// R06.6: teardown statuses come in three. An operation that is interrupted because its channel or connection is
+// going away can report it as cancelled (the context was cancelled), closed (the connection flag) or end (the queue
+// was closed), depending on which signal wins the race. Every place in mpx and rpc that classifies a status as
+// "the other side / the connection is gone, not an error" therefore has to accept all three: a switch that names
+// two of them and forgets the third treats an ordinary race as an unexpected status (closeUser panics on it).
+// Sibling cross-check: all such switches of the two packages agree.
+func init() {
+	register(&Rule{ID: "R06.6", Props: []string{"C06", "C09"}, Floor: 5,
+		Doc: "teardown status classes: every comparison chain over a status code in mpx/rpc that accepts two of {cancelled, closed, end} accepts all three",
+		Run: runR06_6})
+}
+
+func runR06_6(c *Ctx, r *R) {
+	sp := c.Pkgs[statusPath]
+	if sp == nil {
+		for _, p := range c.Pkgs {
+			for _, imp := range p.Imports {
+				if imp.PkgPath == statusPath {
+					sp = imp
+				}
+			}
+		}
+	}
+	if sp == nil {
+		r.Unk("status/codes", 0, "status package not loaded")
+		return
+	}
+	codeVal := map[string]string{}
+	for _, n := range []string{"CodeCancelled", "CodeClosed", "CodeEnd"} {
+		if k, ok := sp.Types.Scope().Lookup(n).(*types.Const); ok {
+			codeVal[constantString(k)] = n
+		}
+	}
+	if len(codeVal) != 3 {
+		r.Unk("status/codes", 0, "teardown code constants not found in the status package")
+		return
+	}
+	n := 0
+	// package mpx only: the switches of package rpc over these codes select a log level (receiveFail) or map wire
+	// codes (parseStatusCode), they do not decide whether a status is a teardown
+	for _, rel := range []string{"mpx"} {
+		for _, fn := range c.SrcFuncs(rel) {
+			// group equality tests by the compared value
+			groups := map[ssa.Value]map[string]token.Pos{}
+			allInstrs(fn, func(i ssa.Instruction) {
+				b, ok := i.(*ssa.BinOp)
+				if !ok || b.Op != token.EQL {
+					return
+				}
+				x, y := b.X, b.Y
+				if _, isK := x.(*ssa.Const); isK {
+					x, y = y, x
+				}
+				k, isK := y.(*ssa.Const)
+				if !isK || k.Value == nil || !typeIs(x.Type(), statusPath, "Code") {
+					return
+				}
+				name := codeVal[constantStringVal(k)]
+				if name == "" {
+					return
+				}
+				if groups[x] == nil {
+					groups[x] = map[string]token.Pos{}
+				}
+				groups[x][name] = b.Pos()
+			})
+			k := 0
+			var vals []ssa.Value
+			for v := range groups {
+				vals = append(vals, v)
+			}
+			sort.Slice(vals, func(i, j int) bool { return vals[i].Name() < vals[j].Name() })
+			for _, v := range vals {
+				g := groups[v]
+				if len(g) < 2 {
+					continue
+				}
+				k++
+				n++
+				key := fmt.Sprintf("%s/teardown-codes#%d", fnKey(fn), k)
+				var pos token.Pos
+				var missing []string
+				for _, name := range []string{"CodeCancelled", "CodeClosed", "CodeEnd"} {
+					if p, ok := g[name]; ok {
+						if pos == 0 {
+							pos = p
+						}
+					} else {
+						missing = append(missing, name)
+					}
+				}
+				if len(missing) == 0 {
+					r.OK(key, pos, "accepts cancelled, closed and end alike")
+				} else {
+					r.Bad(key, pos, "this status classification accepts two of the three teardown codes but not %v, unlike its siblings in the package: when that signal wins the race, an ordinary teardown is treated as an unexpected status (a panic in closeUser, an error log or a failed call elsewhere)", missing)
+				}
+			}
+		}
+	}
+	if n == 0 {
+		r.Unk("mpx/teardown-codes", 0, "anchor lost: no teardown status classification found")
+	}
+}
+
+func constantString(k *types.Const) string {
+	if k.Val().Kind() == constant.String {
+		return constant.StringVal(k.Val())
+	}
+	return k.Val().ExactString()
+}
+
+func constantStringVal(k *ssa.Const) string {
+	if k.Value.Kind() == constant.String {
+		return constant.StringVal(k.Value)
+	}
+	return k.Value.ExactString()
 }
 
 func isConstTrueArg(call ssa.CallInstruction) bool {
